@@ -420,3 +420,51 @@ PLANS['C07'] = {
     'note': 'trusted: TreeSpec builders (spec.rs); hash-order dependence can only be observed across processes, so P bounds what is seen',
     'technique': 'offline join of recorded output hashes across constructions and processes + in-process fixed-point monitor',
 }
+
+
+def _c16(m, tier, seed, rundir, extra):
+    res = core.run_sharded('c16', ['--repo', core.REPO], SH, rundir)
+    m.add_results(res, 'c16')
+    for n in m.notes:
+        if n.startswith('INCONCLUSIVE'):
+            m.inconclusive.append(n)
+
+
+PLANS['C16'] = {
+    'level': 'exploration',
+    'rule': ('exhaustive walk of rbx_reflection_database::get() through the public rbx_reflection types: every superclass chain (resolves, acyclic), every alias target (canonical, same class), '
+             'every serializes-as target (same class, typed, leads back to a serializing property), every migration target (serializable), every enum reference, every default value (belongs to a reachable '
+             'property; type = declared, serialized, or a documented widening); then for EACH class an instance populated with all its serializable defaults is written and read by both codecs and compared '
+             'with the C01/C02 oracle; then EACH (class, own descriptor name) goes once through both writers and, where written, both readers (lookup paths must not panic; own output must be readable); '
+             'the Lua-side copy rbx_dom_lua/src/database.json is cross-checked (version, classes, property sets, kinds). non-trivial = each class default instance per format; distinct = class x format'),
+    'floor': {'quick': 15000, 'thorough': 15000},
+    'exhaustive': {'quick': True, 'thorough': True},
+    'assumptions': ['only the bundled database is covered; a regenerated database is covered by re-running the same check', 'two canonical descriptors sharing a wire name are reported as informational (see known findings of C01/C03)'],
+    'run': _c16,
+    'claim': 'exhaustive over the bundled database (797 classes, 3242 descriptors, 458 enums, 7231 defaults at the pinned version; counts are measured each run): structure coherent, every class default instance unchanged through both codecs, no lookup panics',
+    'note': 'trusted: dbwalk.rs and the C01/C02 oracle; quick and thorough run the same exhaustive walk',
+    'technique': 'structural invariant walk of the live database + per-class codec round-trip monitor (exhaustive enumeration of real executions)',
+}
+
+
+def _c06(m, tier, seed, rundir, extra):
+    count = int(extra.get('count', 3000 if tier == 'quick' else 150000))
+    values = 1 if tier == 'quick' else 8
+    res = core.run_sharded('c06', ['--seed', seed, '--count', count, '--values', values], SH, rundir)
+    m.add_results(res, 'c06')
+
+
+PLANS['C06'] = {
+    'level': 'exploration',
+    'rule': ('for a database-only DOM D: B = read_bin(write_bin(D)), X = read_xml(write_xml(D)) must have the same shape/order/classes/names and hold every explicitly set property under the same '
+             'canonical name (independent database walk) with equal values (NaN as a class); read_xml(write_xml(B)) and read_bin(write_bin(X)) must keep everything the first read produced. '
+             'Workload: EVERY serializable, non-migrating descriptor of the database whose type both formats implement (2201 at the pinned version; skipped ones are counted with the reason) set on its '
+             'owning class and a random subclass, through canonical and alias names, plus random multi-property DOMs over all 797 classes with Ref/SharedString topology. '
+             'Near-basis rotations are replaced by the exact basis (binary snaps them by design); non-trivial = every case; distinct = descriptor#value or DOM digest'),
+    'floor': {'quick': 4000, 'thorough': 100000},
+    'assumptions': ['Content values holding object references are excluded (rbx_xml cannot write them: known finding of C02)'],
+    'run': _c06,
+    'claim': 'held on every covered descriptor (x1 value quick, x8 thorough) and N random DOMs: both formats agree and conversion in either direction loses nothing',
+    'note': 'trusted: dbwalk.rs for expected names, generators; the two codecs are compared with each other (differential), so a mistake made identically in both is C01/C03/C05 territory',
+    'technique': 'cross-codec differential monitor over generated DOMs, exhaustive over database descriptors',
+}
